@@ -37,9 +37,14 @@ fn set_len(info: &AccountInfo, len: usize) -> ProgramResult {
         return Err(ProgramError::InvalidRealloc);
     }
     let mut d = info.data.borrow_mut();
+    let old = d.len();
     let p = d.as_mut_ptr();
     // SAFETY: every AccountInfo handed to an entrypoint by `run` points at the start of a CAP-byte buffer.
     *d = unsafe { std::slice::from_raw_parts_mut(p, len) };
+    // the System program hands out zero-initialised space
+    if len > old {
+        d[old..].fill(0);
+    }
     Ok(())
 }
 
@@ -256,5 +261,42 @@ pub fn err_code(e: &ProgramError) -> u64 {
     match e {
         ProgramError::Custom(c) => *c as u64,
         other => 1_000_000 + u64::from(other.clone()) / (1u64 << 32),
+    }
+}
+
+// ---------- quiet stdout ----------
+// `msg!` of solana-msg prints with `println!` on native targets.  `quiet()` points fd 1 at
+// /dev/null and keeps the original stdout for `emit`.
+extern "C" {
+    fn dup(fd: i32) -> i32;
+    fn dup2(a: i32, b: i32) -> i32;
+}
+static OUT: std::sync::OnceLock<std::sync::Mutex<std::io::BufWriter<std::fs::File>>> = std::sync::OnceLock::new();
+
+pub fn quiet() {
+    use std::os::fd::{AsRawFd, FromRawFd};
+    OUT.get_or_init(|| {
+        let saved = unsafe { dup(1) };
+        assert!(saved >= 0);
+        let null = std::fs::OpenOptions::new().write(true).open("/dev/null").expect("/dev/null");
+        assert!(unsafe { dup2(null.as_raw_fd(), 1) } >= 0);
+        std::sync::Mutex::new(std::io::BufWriter::new(unsafe { std::fs::File::from_raw_fd(saved) }))
+    });
+}
+/// Emit one case line on the real stdout (after `quiet()`).
+pub fn emit(tag: &str, term: &str) {
+    use std::io::Write;
+    match OUT.get() {
+        Some(o) => {
+            let _ = writeln!(o.lock().unwrap(), "{tag}\t{term}");
+        }
+        None => println!("{tag}\t{term}"),
+    }
+}
+/// Flush the real stdout; call at the end of `main`.
+pub fn finish() {
+    use std::io::Write;
+    if let Some(o) = OUT.get() {
+        let _ = o.lock().unwrap().flush();
     }
 }
